@@ -3,6 +3,7 @@
 package c03
 
 import (
+	"context"
 	"fmt"
 	"math/big"
 	"os"
@@ -81,7 +82,7 @@ func drawCase(t *rapid.T) Case {
 		var s Step
 		kinds := []string{"pay", "pay", "pay", "subopen"}
 		if subOpen && !subFinal {
-			kinds = []string{"pay", "pay", "subpay", "subpay", "subclose", "subfinal"}
+			kinds = []string{"pay", "pay", "subpay", "subpay", "subclose", "subfinal", "settle-timeout"}
 		} else if subOpen {
 			// the sub-channel is final but not settled yet: the parent goes on meanwhile
 			kinds = []string{"pay", "pay", "subsettle"}
@@ -179,8 +180,32 @@ func lastAgreed(pr *sim.Pair, id channel.ID) (*channel.State, *h.Failure) {
 	return top, nil
 }
 
-func runCase(c Case) *h.Outcome {
-	o := &h.Outcome{}
+// hangPanic is raised by stateOf when a channel's machine mutex is never
+// released (Channel.State takes it without a context).
+type hangPanic struct{}
+
+// stateOf is Channel.State with the hang limit.
+func stateOf(ch *client.Channel) *channel.State {
+	got := make(chan *channel.State, 1)
+	go func() { got <- ch.State() }()
+	select {
+	case s := <-got:
+		return s
+	case <-time.After(sim.HangLimit):
+		panic(hangPanic{})
+	}
+}
+
+func runCase(c Case) (o *h.Outcome) {
+	o = &h.Outcome{}
+	defer func() {
+		if r := recover(); r != nil {
+			if _, ok := r.(hangPanic); !ok {
+				panic(r)
+			}
+			o.Fail = h.Failf("channel-locked", "Channel.State() does not return within the hang limit: the channel's machine mutex is held for ever")
+		}
+	}()
 	na := len(c.Init)
 	assets := make([]uint64, na)
 	for i := range assets {
@@ -243,12 +268,12 @@ func runCase(c Case) *h.Outcome {
 				chs = pr.Sub
 			}
 			ch := chs[s.By]
-			before := ch.State().Clone()
+			before := stateOf(ch).Clone()
 			from := sim.Idx(ch)
 			amt := new(big.Int).SetUint64(s.Amount)
 			affordable := before.Balances[s.Asset][from].Cmp(amt) >= 0
 			err := pr.Update(s.By, ch, sim.Transfer(s.Asset, from, amt, false), s.Accept)
-			after := ch.State()
+			after := stateOf(ch)
 			switch {
 			case !affordable:
 				o.Class("overdraft-refused-locally")
@@ -278,7 +303,7 @@ func runCase(c Case) *h.Outcome {
 			if pr.Sub[0] != nil {
 				continue
 			}
-			parent := pr.Ch[c.Proposer].State()
+			parent := stateOf(pr.Ch[c.Proposer])
 			ok := true
 			for a := range s.Bals {
 				for p := 0; p < 2; p++ {
@@ -304,6 +329,71 @@ func runCase(c Case) *h.Outcome {
 			}
 			subUsed = true
 			subID = pr.Sub[0].ID()
+		case "settle-timeout":
+			// a settlement attempt that gives up: while a sub-channel update is in
+			// flight (the peer's handler takes 150 ms) party By calls Settle on the
+			// ledger channel with a 50 ms context.  The attempt may fail - the
+			// sub-channel is busy - but it must not leave anything behind: every
+			// later step and the final settlement go on as usual.
+			if pr.Sub[0] == nil || subFinalised {
+				continue
+			}
+			x := pr.SubBy
+			pr.HandlerDelay[x^1].Store(int64(150 * time.Millisecond))
+			theSub := pr.Sub[0].ID()
+			sent := pr.Env.Bus.Collect(func(e *wire.Envelope) bool {
+				m, ok := e.Msg.(*client.ChannelUpdateMsg)
+				return ok && m.State != nil && m.State.ID == theSub
+			})
+			for len(pr.HandlerEntered[s.By]) > 0 {
+				<-pr.HandlerEntered[s.By]
+			}
+			upd := make(chan error, 1)
+			go func() {
+				upd <- pr.Update(x, pr.Sub[x], func(*channel.State) {}, true)
+			}()
+			sent.Wait(1, 2*time.Second)
+			if s.By != x {
+				// the settling party is the responder of the update: wait until its
+				// handler runs (its sub-channel is busy from then on)
+				select {
+				case <-pr.HandlerEntered[s.By]:
+				case <-time.After(2 * time.Second):
+				}
+			}
+			ctx, cancel := context.WithTimeout(context.Background(), 50*time.Millisecond)
+			attempt := make(chan error, 1)
+			go func() { attempt <- pr.Ch[s.By].Settle(ctx, false) }()
+			var err error
+			select {
+			case err = <-attempt:
+			case <-time.After(sim.HangLimit):
+				cancel()
+				return fail("settle-hang", "step %d: a Settle call with a 50 ms context did not return within the hang limit", si)
+			}
+			cancel()
+			if err != nil {
+				o.Class("settle-attempt-timed-out-while-sub-channel-busy")
+			} else {
+				o.Class("settle-attempt-succeeded")
+			}
+			uerr := <-upd
+			pr.HandlerDelay[x^1].Store(0)
+			if lc := L.Channel(ledgerID); lc != nil && lc.Reg != nil {
+				// the attempt was quicker than the update (a loaded machine): it has
+				// registered a dispute, an honest if impatient move after which updates
+				// are refused by design.  Not the situation this step is about.
+				o.Class("settle-attempt-registered-a-dispute(scenario ends)")
+				return o
+			}
+			if uerr != nil {
+				return fail("update-failed", "step %d: the sub-channel update that ran during the settlement attempt failed: %v", si, uerr)
+			}
+			if err == nil {
+				// the channel was settled by the attempt: nothing more to do in this scenario
+				return o
+			}
+			pr.Env.Quiesce(10*time.Millisecond, sim.HangLimit)
 		case "subclose":
 			if pr.Sub[0] == nil || subFinalised {
 				continue
@@ -362,14 +452,14 @@ func runCase(c Case) *h.Outcome {
 		x := c.RushBy
 		ch := pr.Ch[x]
 		fromPeer := sim.FromParty(pr.P[x^1])
-		next := ch.State().Version + 1
+		next := stateOf(ch).Version + 1
 		pr.Env.Bus.TapAfter(func(e *wire.Envelope) {
 			if m, ok := e.Msg.(*client.ChannelUpdateAccMsg); ok && fromPeer(e) && m.ChannelID == ledgerID && m.Version == next {
 				time.Sleep(time.Duration(c.RushHold) * time.Millisecond)
 			}
 		})
 		amt := big.NewInt(1)
-		if ch.State().Balances[0][sim.Idx(ch)].Sign() == 0 {
+		if stateOf(ch).Balances[0][sim.Idx(ch)].Sign() == 0 {
 			amt = big.NewInt(0)
 		}
 		if err := pr.Update(x, ch, sim.Transfer(0, sim.Idx(ch), amt, false), true); err != nil {
@@ -388,7 +478,7 @@ func runCase(c Case) *h.Outcome {
 	if agreed == nil {
 		return fail("no-agreed-state", "no state was enabled by both parties")
 	}
-	if cur := pr.Ch[0].State(); !rush && cur.Equal(agreed) != nil {
+	if cur := stateOf(pr.Ch[0]); !rush && cur.Equal(agreed) != nil {
 		return fail("current-not-agreed", "party A's current state (v%d) is not the last agreed state (v%d)", cur.Version, agreed.Version)
 	}
 	var subAgreed *channel.State
@@ -463,6 +553,9 @@ func TestSettlement(t *testing.T) {
 	defer rec.Flush()
 	rapid.Check(t, func(rt *rapid.T) {
 		c := drawCase(rt)
+		if rec.Failed() {
+			sim.HangLimit = time.Second // rapid is minimising a failing case
+		}
 		rec.MarkCurrent(c)
 		rec.Report(rt, c, runCase(c))
 	})
